@@ -7,8 +7,8 @@ from . import core
 from . import c09_kernel as K
 
 PROP = "C09"
-LEAN_TARGETS = ["Asynkit.Props.C09", "Asynkit.Lemmas.GenEqC09"]
-PROPS_FILES = ["Asynkit/Props/C09.lean", "Asynkit/Lemmas/GenEqC09.lean"]
+LEAN_TARGETS = ["Asynkit.Props.C09", "Asynkit.Lemmas.GenEqC09", "Asynkit.Lemmas.GenEqC15"]
+PROPS_FILES = ["Asynkit/Props/C09.lean", "Asynkit/Lemmas/GenEqC09.lean", "Asynkit/Lemmas/GenEqC15.lean"]
 DRIVERS = ["Kernel"]
 TRUSTED = [
     "Lean 4.33 kernel; axioms ⊆ {propext, Classical.choice, Quot.sound} (audited per theorem each run)",
